@@ -3,7 +3,9 @@ package iogen
 import (
 	"fmt"
 	"go/ast"
+	"go/token"
 	"go/types"
+	"sort"
 	"strings"
 
 	"golang.org/x/tools/go/packages"
@@ -13,14 +15,19 @@ import (
 
 type scanInfo struct {
 	res, world, mutRecv bool
+	mutParams           map[int]bool // parameters of pointer / slice type that the body writes through
+	bad                 string
 }
 
 func (g *gen) scanFunc(fn *types.Func) *scanInfo {
 	if s, ok := g.scan[fn]; ok {
 		return s
 	}
-	s := &scanInfo{}
+	s := &scanInfo{mutParams: map[int]bool{}}
 	g.scan[fn] = s // recursion: assume false
+	if g.forceRes[fn] {
+		s.res = true
+	}
 	fd := g.decls[fn]
 	if fd == nil {
 		return s
@@ -38,7 +45,15 @@ func (g *gen) scanFunc(fn *types.Func) *scanInfo {
 			recv = info.Defs[fd.Recv.List[0].Names[0]]
 		}
 	}
-	rootIs := func(e ast.Expr, o types.Object) bool {
+	// parameters through which a write is visible to the caller (pointer, slice)
+	refParam := map[types.Object]int{}
+	for i := 0; i < sig.Params().Len(); i++ {
+		switch sig.Params().At(i).Type().Underlying().(type) {
+		case *types.Pointer, *types.Slice:
+			refParam[sig.Params().At(i)] = i
+		}
+	}
+	rootObj := func(e ast.Expr) types.Object {
 		for {
 			switch x := ast.Unparen(e).(type) {
 			case *ast.SelectorExpr:
@@ -47,13 +62,27 @@ func (g *gen) scanFunc(fn *types.Func) *scanInfo {
 				e = x.X
 			case *ast.StarExpr:
 				e = x.X
+			case *ast.UnaryExpr:
+				if x.Op != token.AND {
+					return nil
+				}
+				e = x.X
 			case *ast.Ident:
-				return o != nil && info.Uses[x] == o
+				return info.Uses[x]
 			default:
-				return false
+				return nil
 			}
 		}
 	}
+	noteWrite := func(e ast.Expr) {
+		if o := rootObj(e); o != nil {
+			if i, ok := refParam[o]; ok {
+				s.mutParams[i] = true
+			}
+		}
+	}
+	rootIs := func(e ast.Expr, o types.Object) bool { return o != nil && rootObj(e) == o }
+	repointed := map[int]bool{}
 	ast.Inspect(fd.Body, func(n ast.Node) bool {
 		switch x := n.(type) {
 		case *ast.ForStmt, *ast.RangeStmt, *ast.GoStmt:
@@ -68,9 +97,24 @@ func (g *gen) scanFunc(fn *types.Func) *scanInfo {
 			}
 		case *ast.AssignStmt:
 			for _, l := range x.Lhs {
-				if _, isId := ast.Unparen(l).(*ast.Ident); !isId && rootIs(l, recv) {
+				if id, isId := ast.Unparen(l).(*ast.Ident); isId {
+					if i, ok := refParam[info.Uses[id]]; ok {
+						repointed[i] = true
+					}
+				}
+				if _, isId := ast.Unparen(l).(*ast.Ident); !isId {
+					if rootIs(l, recv) {
+						s.mutRecv = true
+					}
+					noteWrite(l)
+				}
+			}
+		case *ast.IncDecStmt:
+			if _, isId := ast.Unparen(x.X).(*ast.Ident); !isId {
+				if rootIs(x.X, recv) {
 					s.mutRecv = true
 				}
+				noteWrite(x.X)
 			}
 		case *ast.CallExpr:
 			c := calleeFunc(info, x)
@@ -83,8 +127,11 @@ func (g *gen) scanFunc(fn *types.Func) *scanInfo {
 					s.world = true
 				}
 				if p.recv == "value" {
-					if se, ok := ast.Unparen(x.Fun).(*ast.SelectorExpr); ok && rootIs(se.X, recv) {
-						s.mutRecv = true
+					if se, ok := ast.Unparen(x.Fun).(*ast.SelectorExpr); ok {
+						if rootIs(se.X, recv) {
+							s.mutRecv = true
+						}
+						noteWrite(se.X)
 					}
 				}
 				return true
@@ -106,15 +153,40 @@ func (g *gen) scanFunc(fn *types.Func) *scanInfo {
 					s.world = true
 				}
 				if cs.mutRecv {
-					if se, ok := ast.Unparen(x.Fun).(*ast.SelectorExpr); ok && rootIs(se.X, recv) {
-						s.mutRecv = true
+					if se, ok := ast.Unparen(x.Fun).(*ast.SelectorExpr); ok {
+						if rootIs(se.X, recv) {
+							s.mutRecv = true
+						}
+						noteWrite(se.X)
+					}
+				}
+				for i := range cs.mutParams {
+					if i < len(x.Args) {
+						if rootIs(x.Args[i], recv) {
+							s.mutRecv = true
+						}
+						noteWrite(x.Args[i])
 					}
 				}
 			}
 		}
 		return true
 	})
+	for i := range s.mutParams {
+		if repointed[i] {
+			s.bad = fmt.Sprintf("parameter %s is assigned and also written through (aliasing is not understood)", sig.Params().At(i).Name())
+		}
+	}
 	return s
+}
+
+func (s *scanInfo) mutList() []int {
+	var l []int
+	for i := range s.mutParams {
+		l = append(l, i)
+	}
+	sort.Ints(l)
+	return l
 }
 
 func isErrorType(t types.Type) bool {
@@ -128,6 +200,9 @@ type binding struct {
 	name    string
 	t       *cty
 	tok     bool
+	alias   bool   // a pointer / slice / map that may share memory with another variable: writes through it are not understood
+	cval    *int64 // value known to the translator (index of an unrolled loop)
+	nonneg  bool   // an int known to be >= 0 (a length, a loop index) since its last assignment
 	wrapped bool
 	closure *closureInfo
 	ext     map[string]*binding // local of an external struct type: field path -> variable
@@ -168,6 +243,9 @@ type fn struct {
 	body        ast.Node
 	assignCount map[types.Object]int
 	ph          int
+	reassign    map[types.Object]bool
+	conts       []cont       // what `continue` means in the enclosing loops (innermost last)
+	ranges      []*rangeElem // enclosing `for i := range X` loops whose X[i] is the element
 }
 
 var reserved = map[string]bool{"w": true, "fst": true, "snd": true, "tt": true, "fun": true, "let": true, "in": true,
@@ -221,6 +299,9 @@ func (f *fn) popFrame() { f.frames = f.frames[:len(f.frames)-1] }
 func (f *fn) assigned(o types.Object) {
 	if f.assignCount != nil {
 		f.assignCount[o]++
+	}
+	if b := f.env[o]; b != nil {
+		b.nonneg = false
 	}
 	for _, fr := range f.frames {
 		if !fr.pre[o] {
@@ -319,4 +400,151 @@ type val struct {
 func isBlank(e ast.Expr) bool {
 	id, ok := e.(*ast.Ident)
 	return ok && id.Name == "_"
+}
+
+// isRefType: values of this Go type share memory when copied
+func isRefType(t types.Type) bool {
+	if t == nil {
+		return false
+	}
+	switch t.Underlying().(type) {
+	case *types.Pointer, *types.Slice, *types.Map:
+		return true
+	}
+	return false
+}
+
+// freshValue: the expression yields memory no other variable of the function refers to
+// (a call result, a composite literal or its address, nil)
+func freshValue(e ast.Expr) bool {
+	switch x := ast.Unparen(e).(type) {
+	case *ast.CallExpr, *ast.CompositeLit, *ast.FuncLit:
+		return true
+	case *ast.UnaryExpr:
+		if x.Op == token.AND {
+			_, ok := ast.Unparen(x.X).(*ast.CompositeLit)
+			return ok
+		}
+	case *ast.Ident:
+		return x.Name == "nil"
+	}
+	return false
+}
+
+// noteAlias records, for a variable of reference type being defined or assigned from rhs,
+// whether writes through it could be visible through another variable
+func (f *fn) noteAlias(lhs ast.Expr, rhs ast.Expr) {
+	id, ok := ast.Unparen(lhs).(*ast.Ident)
+	if !ok || id.Name == "_" {
+		return
+	}
+	o := f.info.Defs[id]
+	if o == nil {
+		o = f.info.Uses[id]
+	}
+	b := f.env[o]
+	if b == nil || o == nil || !isRefType(o.Type()) {
+		return
+	}
+	if rhs == nil || freshValue(rhs) {
+		b.alias = false
+		return
+	}
+	b.alias = true
+}
+
+// noteNonNeg records that an int variable just defined / assigned from rhs cannot be negative
+func (f *fn) noteNonNeg(lhs ast.Expr, rhs ast.Expr) {
+	id, ok := ast.Unparen(lhs).(*ast.Ident)
+	if !ok || id.Name == "_" {
+		return
+	}
+	o := f.info.Defs[id]
+	if o == nil {
+		o = f.info.Uses[id]
+	}
+	if b := f.env[o]; b != nil && b.t != nil && b.t.k == kZ && b.t.goInt == "int" && f.info.Defs[id] != nil && !f.reassigned(o) {
+		// only for a variable that keeps the value it is defined with
+		b.nonneg = f.nonNeg(rhs)
+	}
+}
+
+// reassigned: the variable is the target of an assignment, ++/--, & or a range clause somewhere in
+// the function, besides its definition
+func (f *fn) reassigned(o types.Object) bool {
+	if f.reassign == nil {
+		f.reassign = map[types.Object]bool{}
+		mark := func(e ast.Expr) {
+			if id, ok := ast.Unparen(e).(*ast.Ident); ok {
+				if u := f.info.Uses[id]; u != nil {
+					f.reassign[u] = true
+				}
+			}
+		}
+		root := f.body
+		for c := f.closureOf; c != nil; c = c.closureOf {
+			root = c.body
+		}
+		ast.Inspect(root, func(n ast.Node) bool {
+			switch x := n.(type) {
+			case *ast.AssignStmt:
+				for _, l := range x.Lhs {
+					mark(l)
+				}
+			case *ast.IncDecStmt:
+				mark(x.X)
+			case *ast.UnaryExpr:
+				if x.Op == token.AND {
+					mark(x.X)
+				}
+			case *ast.RangeStmt:
+				if x.Tok == token.ASSIGN {
+					if x.Key != nil {
+						mark(x.Key)
+					}
+					if x.Value != nil {
+						mark(x.Value)
+					}
+				}
+			}
+			return true
+		})
+	}
+	return f.reassign[o]
+}
+
+// rootBinding: the variable at the root of an lvalue path
+func (f *fn) rootBinding(e ast.Expr) (*binding, *ast.Ident) {
+	for {
+		switch x := ast.Unparen(e).(type) {
+		case *ast.SelectorExpr:
+			e = x.X
+		case *ast.IndexExpr:
+			e = x.X
+		case *ast.StarExpr:
+			e = x.X
+		case *ast.UnaryExpr:
+			if x.Op != token.AND {
+				return nil, nil
+			}
+			e = x.X
+		case *ast.Ident:
+			o := f.info.Uses[x]
+			if o == nil {
+				o = f.info.Defs[x]
+			}
+			return f.env[o], x
+		default:
+			return nil, nil
+		}
+	}
+}
+
+// checkWriteThrough: a write into memory reached through this expression (a field, an
+// element, the target of a pointer handed to a callee that writes through it)
+func (f *fn) checkWriteThrough(e ast.Expr) error {
+	if b, id := f.rootBinding(e); b != nil && b.alias {
+		return f.errf(e, "write through %s, which may share memory with another variable (aliasing is not understood)", id.Name)
+	}
+	return nil
 }
